@@ -49,15 +49,15 @@ I(v) == BI(v.neg, v.mag)
 \* what the specification demands at output index k (0-based) of this call
 Want(e, k) ==
     CASE e.kind = "multiply" -> ConvAtBI(e.a, e.b, k)
-      [] e.kind = "multiply_into" -> BIAdd(BIFromInt(e.dst[k + 1]), IF k <= Len(e.a) + Len(e.b) - 2 THEN ConvAtBI(e.a, e.b, k) ELSE BIZero)
+      [] e.kind \in {"multiply_into", "multiply_into_short"} -> BIAdd(BIFromInt(e.dst[k + 1]), IF k <= Len(e.a) + Len(e.b) - 2 THEN ConvAtBI(e.a, e.b, k) ELSE BIZero)
       [] e.kind = "pointwise" -> ConvAtBI(e.a, e.b, k)
-      [] e.kind = "inv_into" -> BIAdd(BIFromInt(e.dst[k + 1]), IF k < e.n THEN ConvAtBI(e.a, e.b, k) ELSE BIZero)
+      [] e.kind \in {"inv_into", "inv_into_short"} -> BIAdd(BIFromInt(e.dst[k + 1]), IF k < e.n THEN ConvAtBI(e.a, e.b, k) ELSE BIZero)
 
 LenOK(e) ==
     CASE e.kind = "multiply" -> e.len = (IF e.a = <<>> \/ e.b = <<>> THEN 0 ELSE Len(e.a) + Len(e.b) - 1)
-      [] e.kind = "multiply_into" -> e.len = Len(e.dst)
+      [] e.kind \in {"multiply_into", "multiply_into_short"} -> e.len = Len(e.dst)
       [] e.kind = "pointwise" -> e.len = e.n
-      [] e.kind = "inv_into" -> e.len = Len(e.dst)
+      [] e.kind \in {"inv_into", "inv_into_short"} -> e.len = Len(e.dst)
 
 Step(e) ==
     IF "panic" \in DOMAIN e THEN Mismatch(l, [ev |-> "call", op |-> e.kind, float |-> e.float, la |-> Len(e.a), lb |-> Len(e.b), panic |-> e.panic], "must not panic")
